@@ -9,7 +9,7 @@ for n in $names; do
   git -C /repo apply /verif/$d/patch.diff || { echo "$n: patch does not apply"; continue; }
   rm -f replays/$prop-*.json
   out=$(timeout 1500 ./check $prop 2>&1 | grep -E "^(VIOLATION|OK|KNOWN)")
-  git -C /repo checkout -- .
+  git -C /repo checkout -- . && git -C /repo clean -fdq
   python3 - "$n" "$prop" "$out" <<'PY'
 import sys, json, glob, os
 n, prop, out = sys.argv[1:4]
